@@ -207,8 +207,16 @@ FIRST_RUN_MISSED = {  # seeded changes the checks did NOT catch when first confr
     "C18-26": "every compared tree had parent back-references on all children and no subtree listed under two parents",
     "C20-25": "the oracle accepted any white space where blank text was expected (the output is indented); a childless element's blank text must now come back empty",
     "C20-26": "no text coming from a general entity declared in the document's internal subset",
+    "C02-25": "NOT DETECTED BY DESIGN: white-space-only content under nonEmptyContent is an unspecified zone of the C02 oracle (DESIGN section 3: the statement's 'non-empty' does not say whether blank text counts, and EML's own NonEmptyStringType refuses it)",
+    "C03-26": "NOT DETECTED BY DESIGN: the two attribute passes swapped - verdicts, error sets and 'fail-fast raises what collecting mode lists first' all still hold; the statement fixes no order among the three kinds of constraint",
+    "C07-25": "every tree declared its prefixes on the root (or re-bound them once below); trees in which every element below the root declares the same prefix separately were added",
+    "C11-25": "exports were only asked for the root; every node is now also exported as the outermost element, and a base has white-space-only tails",
+    "C11-26": "no base had a value one step (letter case, padding) away from an enumerated one",
+    "C14-23": "reference chains (a referenced element that itself holds a reference) were not expanded; every document order of chains of 3 and 4 is now",
+    "C14-24": "the children flag was only ever True or False; 1, 2, 'yes' and 0 were added",
+    "C19-25": "coverage was only temporal or absent; geographic, taxonomic and references-only forms were added",
 }
-NOT_DETECTED_BY_DESIGN = {"C19-5", "C09-8", "C19-23"}
+NOT_DETECTED_BY_DESIGN = {"C19-5", "C09-8", "C19-23", "C02-25", "C03-26"}
 ids = sys.argv[1:] or sorted(os.listdir(os.path.join(HERE, "seeded")))
 PAR = int(os.environ.get("SEED_PAR", "3"))
 ENV = dict(os.environ)
